@@ -4,15 +4,16 @@
     io.Copy, bufio.Writer.ReadFrom) and the sequence of write sites executed by
     Flush/Close.  Executable, no proofs.
 
-    Go sources mirrored (line numbers of /repo at the time of writing):
-      writer.go:2887-2922   offsetTrackingWriter.{Write,WriteString,ReadFrom}
-      writer.go:1235-1252   writer.close
-      writer.go:1259-1272   writer.writeFileHeader
-      writer.go:1274-1294   writer.writeDeferredBloomFilters
-      writer.go:1296-1488   writer.writeFileFooter
-      writer.go:1490-1837   writer.writeRowGroup
-      writer.go:2386-2437   ColumnWriter.writeBloomFilter
-      writer.go:2584-2650   ColumnWriter.writeDictionaryPage
+    Go sources mirrored (line numbers of `git show 6b7b39f:writer.go`; the
+    functions are named so that the sites can be found after the lines moved):
+      writer.go:2941-2966   offsetTrackingWriter.{Write,WriteString,ReadFrom}
+      writer.go:1242-1259   writer.close
+      writer.go:1266-1279   writer.writeFileHeader
+      writer.go:1281-1301   writer.writeDeferredBloomFilters
+      writer.go:1303-1499   writer.writeFileFooter
+      writer.go:1501-1850   writer.writeRowGroup
+      writer.go:2404-2455   ColumnWriter.writeBloomFilter
+      writer.go:2608-2674   ColumnWriter.writeDictionaryPage
       internal/memory/buffer.go:78-94  Buffer.WriteTo
       bufio.Writer.{Flush,Write,WriteString,ReadFrom}, io.Copy (Go 1.24 standard library)
 
@@ -139,7 +140,7 @@ Section Sink.
     if is_err (b_err b) then (s, b, b_err b) else bufio_fill s b data.
 
   (** the writer below offsetTrackingWriter: the destination itself
-      (WriteBufferSize <= 0, writer.go:1096) or a bufio.Writer (writer.go:1099) *)
+      (WriteBufferSize <= 0, newWriter) or a bufio.Writer (bufio.NewWriterSize in newWriter) *)
   Record st := mkSt { snk : sink; bw : option bufw }.
 
   Definition content (t : st) : list A :=
@@ -160,7 +161,7 @@ Section Sink.
     | Some b => let '(s, b', n, e) := bufio_write_gen false (snk t) b p in (mkSt s (Some b'), n, e)
     end.
 
-  (** offsetTrackingWriter.Write / WriteString (writer.go:2897-2915).
+  (** offsetTrackingWriter.Write / WriteString (writer.go:2941-2959).
       [cur = true]: the current code, a short count with a nil error becomes
       io.ErrShortWrite; [cur = false]: the code before commit 1e4fc72, which
       returned (n, nil) unchanged. *)
@@ -226,8 +227,8 @@ Section Sink.
   (** how a site moves its bytes *)
   Inductive mech :=
   | MWrite         (* Write/WriteString calls on offsetTrackingWriter, stop at the first error *)
-  | MWriteTo       (* io.Copy(&w.writer, memory.Buffer) = Buffer.WriteTo(&w.writer)  (writer.go:1607) *)
-  | MLowerWriteTo  (* w.writer.ReadFrom(memory.Buffer) = io.Copy(w.writer.writer, buf) = Buffer.WriteTo(w.writer.writer): below offsetTrackingWriter (writer.go:1287, 2917-2921) *)
+  | MWriteTo       (* io.Copy(&w.writer, memory.Buffer) = Buffer.WriteTo(&w.writer)  (writeRowGroup, writer.go:1624) *)
+  | MLowerWriteTo  (* w.writer.ReadFrom(memory.Buffer) = io.Copy(w.writer.writer, buf) = Buffer.WriteTo(w.writer.writer): below offsetTrackingWriter (writer.go:1294, 2961-2966) *)
   | MLowerCopy.    (* w.writer.ReadFrom(r) with r an *os.File or io.SectionReader: io.Copy(w.writer.writer, r): generic loop on the destination, bufio.Writer.ReadFrom on a bufio.Writer *)
 
   Definition site_data_of (ps : list piece) : list A := concat (map snd ps).
@@ -256,32 +257,33 @@ Arguments snk {A}. Arguments bw {A}.
     /repo/writer.go; the fault sweep of harness/c14 validates each flag (a site
     whose error is dropped shows up as a nil Close with bytes missing). *)
 Inductive kind :=
-| KHeader           (* 1268 `_, err := w.writer.WriteString(magic); return err`; callers 1236 (close), 1540 (writeRowGroup) *)
-| KCopiedDict       (* 1556 `if _, err := w.writer.ReadFrom(...); err != nil` *)
-| KCopiedData       (* 1567 *)
-| KDictPage         (* 2642, 2645 `if _, err := output.Write(...); err != nil`; caller 1586 *)
-| KDictPageEnc      (* 2630, 2633; caller 1586 *)
-| KDataPages        (* 1607 `if _, err := io.Copy(&w.writer, c.pageBuffer); err != nil` *)
-| KCopiedBloom      (* 1641 *)
-| KBloomInline      (* 2432 `if err := e.Encode(&h); err != nil`, 2435-2436 `_, err := w.Write(filterBytes); return err`; caller 1681 *)
-| KBloomInlineEnc   (* 2424, 2427-2428; caller 1681 *)
-| KBloomDeferred    (* 1287 `if _, err := w.writer.ReadFrom(bf.buf); err != nil`; caller 1242 *)
-| KColumnIndex      (* 1351 `else if err := encoder.Encode(&columnIndexes[j]); err != nil` *)
-| KColumnIndexEnc   (* 1348 *)
-| KOffsetIndex      (* 1377 *)
-| KOffsetIndexEnc   (* 1374 *)
-| KFooter           (* 1479 `if err := encoder.Encode(&w.fileMetaData); err != nil` *)
-| KFooterCrypto     (* 1434 FileCryptoMetaData, 1438 encrypted footer *)
-| KFooterSigned     (* 1460 plaintext footer, 1469 signature *)
-| KFooterTail.      (* 1486-1487 (1444-1445, 1474-1475 with encryption) `_, err := w.writer.Write(w.footer[:]); return err` *)
+| KHeader           (* writeFileHeader 1275-1276 `_, err := w.writer.WriteString(magic); return err`; callers: close 1243, writeRowGroup 1551 *)
+| KCopiedDict       (* writeRowGroup 1567 `if _, err := w.writer.ReadFrom(...); err != nil` *)
+| KCopiedData       (* writeRowGroup 1578 *)
+| KDictPage         (* writeDictionaryPage 2666, 2669 `if _, err := output.Write(...); err != nil`; caller writeRowGroup 1603 *)
+| KDictPageEnc      (* writeDictionaryPage 2654, 2657; caller 1603 *)
+| KDataPages        (* writeRowGroup 1624 `if _, err := io.Copy(&w.writer, c.pageBuffer); err != nil` *)
+| KCopiedBloom      (* writeRowGroup 1658 *)
+| KBloomInline      (* writeBloomFilter 2450 `if err := e.Encode(&h); err != nil`, 2453-2454 `_, err := w.Write(filterBytes); return err`; caller writeRowGroup 1698 *)
+| KBloomInlineEnc   (* writeBloomFilter 2442, 2445-2446; caller 1698 *)
+| KBloomDeferred    (* writeDeferredBloomFilters 1294 `if _, err := w.writer.ReadFrom(bf.buf); err != nil`; caller close 1249 *)
+| KColumnIndex      (* writeFileFooter 1362 `else if err := encoder.Encode(&columnIndexes[j]); err != nil` *)
+| KColumnIndexEnc   (* writeFileFooter 1359 *)
+| KOffsetIndex      (* writeFileFooter 1388 *)
+| KOffsetIndexEnc   (* writeFileFooter 1385 *)
+| KFooter           (* writeFileFooter 1490 `if err := encoder.Encode(&w.fileMetaData); err != nil` *)
+| KFooterCrypto     (* writeFileFooter 1445 FileCryptoMetaData, 1449 encrypted footer *)
+| KFooterSigned     (* writeFileFooter 1471 plaintext footer, 1480 signature *)
+| KFooterTail.      (* writeFileFooter 1497-1498 (1455-1456, 1485-1486 with encryption) `_, err := w.writer.Write(w.footer[:]); return err` *)
 
 (* every row of the table is `true` because every site listed above is
    followed by `if err != nil { return ... err }` (or returns the error) and
-   the callers do the same: writeRowGroup <- flush 1255-1256 <- close 1239 /
-   Writer.Flush 494; writeDeferredBloomFilters <- close 1242; writeFileFooter
-   <- close 1245; close <- Writer.Close 479 <- GenericWriter.Close 234.  The
-   thrift encoder returns the first error of its Write calls
-   (encoding/thrift/encode.go:335-350, compact.go:260-363, binary.go:366-392). *)
+   the callers do the same: writeRowGroup <- flush 1262-1263 <- close 1246 /
+   Writer.Flush; writeDeferredBloomFilters <- close 1249; writeFileFooter
+   <- close 1252; close <- Writer.Close <- GenericWriter.Close.  The thrift
+   encoder returns the first error of its Write calls
+   (encoding/thrift/encode.go structEncoder.encode, compact.go compactWriter,
+   binary.go binaryWriter.write/writeString/writeByte). *)
 Definition site_checked (k : kind) : bool :=
   match k with
   | KHeader => true | KCopiedDict => true | KCopiedData => true
@@ -294,7 +296,7 @@ Definition site_checked (k : kind) : bool :=
   | KFooterTail => true
   end.
 
-(* writer.go:1248-1250 `if w.buffer != nil { return w.buffer.Flush() }` *)
+(* close, writer.go:1255-1257 `if w.buffer != nil { return w.buffer.Flush() }` *)
 Definition final_flush_checked : bool := true.
 
 Definition all_kinds : list kind :=
@@ -325,7 +327,7 @@ Section Close.
 
   (** everything the API calls of one file life do to the destination: the
       sites (whichever of Write/Flush/Close reaches them) and the final
-      w.buffer.Flush() of close (writer.go:1248).  Reporting index
+      w.buffer.Flush() of close (writer.go:1256).  Reporting index
       [length xs] designates that final flush. *)
   Definition close (cur : bool) (chk : kind -> bool) (chk_flush : bool) (t : st A) (xs : list site)
     : st A * err * nat :=
